@@ -587,6 +587,10 @@ class C12(Base):
                 exp[name] = None if u is None else str(u)
         return exp
 
+    def project(self, case, obs):
+        # `cs` (the same select on concurrent bundles with a warmed formatter cache) is judged by the predicate only
+        return ";".join(p for p in obs.split(";") if not p.startswith("cs="))
+
     def predicate(self, case, impl_obs):
         bad = super().predicate(case, impl_obs)
         if bad:
@@ -599,6 +603,8 @@ class C12(Base):
         o = parse_obs(impl_obs)
         if not all(k in o for k in "pqsr"):
             return "malformed observation"
+        if o.get("cs", "same") != "same":
+            return "the selected variant depends on the bundle flavour / on which plural rules were cached first: s=%s but %s" % (o["s"], o["cs"])
         if c.ood:
             return None
         p, pe = text_of(o["p"])
